@@ -105,7 +105,7 @@ def cell(v):
     if v == NULL:
         return None
     if isinstance(v, dict):   # avg [num, den]
-        return {"r": v["num"] / v["den"]}
+        return None if v["num"] == NULL else {"r": v["num"] / v["den"]}
     if v >= 100:
         return TEXT[v]
     return v
